@@ -57,7 +57,7 @@ func (p *Printer) emit(s string) {
 	}
 }
 
-var commentBodies = []string{" c ", "", " é世 ", " \" ' ", " x\n   y ", "\t", " ; { } ", "* ", " a // b ", "/ x", " +\n"}
+var commentBodies = []string{" c ", "", " é世 ", " \uFFFD\U0001D11E ", " \" ' ", " x\n   y ", "\t", " ; { } ", "* ", " a // b ", "/ x", " +\n"}
 
 // sep emits optional or required token separation. need: whitespace is
 // required (between two unquoted tokens). afterUnq: a comment may not follow
